@@ -382,7 +382,7 @@ func NewStreamMonitor(e *Env, filter func(rule string) bool) (*StreamModel, *Mon
 			return
 		}
 		// balance deltas of every account against the model's prediction
-		payer := tx.Spec.Signers[0].Addr.String()
+		payer := feePayerOf(tx)
 		if tx.Spec.Granter != nil {
 			payer = tx.Spec.Granter.String()
 		}
